@@ -730,6 +730,237 @@ def _weekday_anchor(ctx) -> None:
            f"{n} (date, weekday) cases: " + (f"wrong: {bad[:3]}" if bad else "always the day with that weekday in the week of the date"), m.loc(blocks[0]))
 
 
+# ---- value rules: Formatter.format / Formatter.parse evaluated by the checker's interpreter in the formatter world ----
+_ORD = {1: "st", 2: "nd", 3: "rd"}
+
+
+def _ordinal(n: int) -> str:
+    return f"{n}{'th' if 10 <= n % 100 <= 20 else _ORD.get(n % 10, 'th')}"
+
+
+_EN_L = {"LT": "h:mm A", "LTS": "h:mm:ss A", "L": "MM/DD/YYYY", "LL": "MMMM D, YYYY", "LLL": "MMMM D, YYYY h:mm A", "LLLL": "dddd, MMMM D, YYYY h:mm A"}
+_MONTHS = ["January", "February", "March", "April", "May", "June", "July", "August", "September", "October", "November", "December"]
+_DAYS = ["Monday", "Tuesday", "Wednesday", "Thursday", "Friday", "Saturday", "Sunday"]
+
+
+def _offset_text(off, colon: bool) -> str:
+    import datetime as _dt
+    mins = abs(off) // _dt.timedelta(minutes=1)
+    return f"{'-' if off < _dt.timedelta(0) else '+'}{mins // 60:02d}{':' if colon else ''}{mins % 60:02d}"
+
+
+def expected_token(tok: str, w, off) -> str | None:
+    """what the documentation (docs/docs/string_formatting.md, English locale) says `tok` renders for the wall time `w` at UTC offset `off`,
+    computed with the standard library only; None = not tabulated"""
+    import datetime as _dt
+    h12 = w.hour % 12 or 12
+    ts = (w - off - _dt.datetime(1970, 1, 1)) // _dt.timedelta(seconds=1)
+    yday = w.timetuple().tm_yday
+    q = (w.month - 1) // 3 + 1
+    simple = {
+        "YYYY": f"{w.year:d}", "YY": f"{w.year % 100:02d}", "Y": f"{w.year:d}", "Q": f"{q}", "Qo": _ordinal(q),
+        "MMMM": _MONTHS[w.month - 1], "MMM": _MONTHS[w.month - 1][:3], "MM": f"{w.month:02d}", "M": f"{w.month}", "Mo": _ordinal(w.month),
+        "DDDD": f"{yday:03d}", "DDD": f"{yday}", "DD": f"{w.day:02d}", "D": f"{w.day}", "Do": _ordinal(w.day),
+        "dddd": _DAYS[w.weekday()], "ddd": _DAYS[w.weekday()][:3], "dd": _DAYS[w.weekday()][:2], "d": f"{w.isoweekday() % 7}", "E": f"{w.isoweekday()}",
+        "HH": f"{w.hour:02d}", "H": f"{w.hour}", "hh": f"{h12:02d}", "h": f"{h12}", "mm": f"{w.minute:02d}", "m": f"{w.minute}",
+        "ss": f"{w.second:02d}", "s": f"{w.second}", "A": "AM" if w.hour < 12 else "PM",
+        "Z": _offset_text(off, True), "ZZ": _offset_text(off, False), "z": _offset_text(off, True), "zz": _offset_text(off, True),
+        "X": f"{ts}", "x": f"{ts * 1000 + w.microsecond // 1000}",
+    }
+    if tok in simple:
+        return simple[tok]
+    if tok and set(tok) == {"S"} and len(tok) <= 6:
+        return f"{w.microsecond:06d}"[:len(tok)]
+    if tok in _EN_L:
+        return expected_format(_EN_L[tok], w, off)
+    return None
+
+
+def expected_format(fmt: str, w, off) -> str:
+    """`fmt` rendered by the documentation's rules: [text] verbatim, the longest documented token at each position, other characters as they are"""
+    toks = sorted(set(SLOT) | {"Qo", "Mo", "zz"} | set(_EN_L), key=len, reverse=True)
+    out, i = [], 0
+    while i < len(fmt):
+        if fmt[i] == "[" and "]" in fmt[i:]:
+            j = fmt.index("]", i)
+            out.append(fmt[i + 1:j])
+            i = j + 1
+            continue
+        for t in toks:
+            if fmt.startswith(t, i) and expected_token(t, w, off) is not None:
+                out.append(expected_token(t, w, off))
+                i += len(t)
+                break
+        else:
+            out.append(fmt[i])
+            i += 1
+    return "".join(out)
+
+
+def _grid(thorough: bool):
+    import datetime as _dt
+    ws = [_dt.datetime(2021, 3, 7, 14, 5, 9, 123456), _dt.datetime(2000, 2, 29, 0, 0, 0, 0), _dt.datetime(1999, 12, 31, 23, 59, 59, 999999),
+          _dt.datetime(1000, 1, 1, 12, 0, 0, 1), _dt.datetime(9999, 12, 31, 11, 59, 0, 990000), _dt.datetime(1969, 7, 20, 20, 17, 40, 7),
+          _dt.datetime(2024, 12, 30, 1, 1, 1, 100), _dt.datetime(2023, 1, 1, 12, 30, 30, 500000), _dt.datetime(2011, 11, 11, 11, 11, 11, 111111),
+          _dt.datetime(2022, 10, 22, 22, 2, 20, 20), _dt.datetime(2020, 6, 13, 9, 9, 9, 90909), _dt.datetime(1970, 1, 1, 0, 0, 0, 0),
+          _dt.datetime(2038, 1, 19, 3, 14, 8, 1000), _dt.datetime(2019, 8, 21, 13, 0, 0, 999), _dt.datetime(2024, 12, 31, 0, 30, 0, 10)]
+    ws += [_dt.datetime(2021, 8, 2 + i, (5 * i) % 24, 7 * i, 8 * i, 1001 * i) for i in range(7)]
+    if thorough:
+        ws += [_dt.datetime(1000 + 37 * i, 1 + i % 12, 1 + (5 * i) % 28, i % 24, (7 * i) % 60, (11 * i) % 60, (100003 * i) % 1000000) for i in range(1, 240)]
+    offs = [_dt.timedelta(0), _dt.timedelta(hours=5, minutes=30), _dt.timedelta(hours=-3, minutes=-30), _dt.timedelta(hours=14), _dt.timedelta(hours=-11)]
+    return ws, offs
+
+
+SEQUENCES = ["dddd Do [of] MMMM YYYY HH:mm:ss A", "[on] YYYY-MM-DD [at] HH:mm:ss.SSSSSS [UTC]Z", "YYYY-MM-DDTHH:mm:ss.SSSZZ", "ddd, D MMM YY h:m:s A [Q]Q", "[[escaped]] E/d DDDD",
+             "YYYY[Y]MM[M]DD[D] x X", "hh [o'clock] a", "Do MMM, Qo [quarter] - dd", "LLLL [/] LTS"]
+FULL = ["YYYY-MM-DD HH:mm:ss.SSSSSS ZZ", "YYYY-MM-DDTHH:mm:ss.SSSSSSZ", "DD/MM/YYYY hh:mm:ss A SSSSSS Z", "dddd, MMMM Do YYYY, h:mm:ss.SSSSSS A ZZ", "YYYY DDDD HH mm ss SSSSSS Z",
+        "[on] YYYY-MM-DD [at] HH:mm:ss.SSSSSS [offset]Z", "D MMM YYYY H:m:s.SSSSSS ZZ", "YYYY-MM-DD ddd HH:mm:ss.SSSSSS Z", "YYYY-MM-DD dd HH:mm:ss.SSSSSS Z"]
+WEEKDAY_TOKENS = ["d", "E"]
+ZONE_NAMES = ["Europe/Paris", "America/Argentina/Buenos_Aires", "UTC", "Etc/GMT+5", "America/Port-au-Prince"]
+NOMATCH = [("2021-03-07", "YYYY-MM-DD HH:mm"), ("2021/03/07", "YYYY-MM-DD"), ("2021-03", "YYYY-MM-DD"), ("2021-03-07 1x", "YYYY-MM-DD HH"), ("12.30", "HH:mm"), ("Marchh 2021", "MMMM YYYY"),
+           ("2021-03-07x", "YYYY-MM-DD"), ("x2021-03-07", "YYYY-MM-DD"), ("2021-1x-01", "YYYY-MM-DD"), ("", "YYYY"), ("2021-03-07 +5:30", "YYYY-MM-DD Z"), ("7th", "D"), ("Sunday", "MMMM")]
+
+
+def _locales() -> list[str]:
+    d = core.REPO / "src/pendulum/locales"
+    return sorted(p.name for p in d.iterdir() if p.is_dir() and (p / "locale.py").exists())
+
+
+def _tz_of(v):
+    return vars(v).get("_zone") if v is not None and hasattr(v, "__dict__") else v
+
+
+def _formatter_tabulate(ctx, thorough: bool) -> None:
+    """RENDER.tabulated / ROUNDTRIP.tabulated / NOWFILL.tabulated / NOMATCH.tabulated: Formatter.format and Formatter.parse (with the
+    token tables, the Locale class and the locale literals they read) are evaluated by the checker's interpreter in the formatter world
+    (rules/fmtstub.py: DateTime values of the wall-clock world at a fixed offset, `re` from the standard library); the strings are compared
+    with the documentation's rules computed from the standard library, the parts returned by parse() with the fields formatted."""
+    import datetime as _dt
+    from ..rules import fmtstub, minieval
+    m = pmod(FMT)
+    loc_format, loc_parse = m.loc(m.func("Formatter.format")), m.loc(m.func("Formatter.parse"))
+    ws, offs = _grid(thorough)
+    now = _dt.datetime(1987, 6, 5, 4, 3, 2, 1)
+    docs = documented_tokens()
+    worlds = {}
+
+    def world(off):
+        if off not in worlds:
+            worlds[off] = fmtstub.World(off)
+        return worlds[off]
+
+    pairs = [(w, off) for off in offs for w in ws] if thorough else [(w, offs[i % len(offs)]) for i, w in enumerate(ws)]
+
+    def outcome(f, *a, **k):
+        try:
+            return ("ok", f(*a, **k))
+        except minieval.Raised as e:
+            return ("raise", e.exc_name)
+        except (ValueError, OverflowError) as e:                 # an error of the standard library on plain values
+            return ("raise", type(e).__name__)
+
+    try:
+        # 1. every documented token and the sequences
+        bad: dict[str, list[str]] = {}
+        cross = [(w, off) for off in offs for w in ws]
+        count = {}
+        for fmt in docs + SEQUENCES:
+            for w, off in (cross if fmt in ("Z", "ZZ", "X", "x") else pairs):           # the offset matters to these: every offset with every value
+                want = expected_format(fmt, w, off) if fmt in SEQUENCES else expected_token(fmt, w, off)
+                if want is None:
+                    continue
+                got = outcome(world(off).format, w, fmt)
+                count[fmt] = count.get(fmt, 0) + 1
+                if got != ("ok", want):
+                    bad.setdefault(fmt, []).append(f"{w.isoformat()}{_offset_text(off, True)}: {got[1]!r} (documented: {want!r})")
+        for fmt in docs + SEQUENCES:
+            if expected_token(fmt, ws[0], offs[0]) is None and fmt not in SEQUENCES:
+                continue
+            ctx.ob("RENDER.tabulated", f"format token `{fmt}`" if fmt in docs else f"format `{fmt}`", fmt not in bad,
+                   f"{count.get(fmt, 0)} (DateTime, offset) values: " + (f"wrong: {bad[fmt][:3]}" if fmt in bad else "the documented rendering computed from the standard library"), loc_format)
+        if not bad:
+            ctx.established(("RENDER.rule", "TABLES.handler"), "token/", "RENDER.tabulated")
+            ctx.established(("MERIDIEM",), "format/A", "RENDER.tabulated")
+            ctx.established(("OFFSET.render",), "Formatter._format_token", "RENDER.tabulated")
+        # zone names through z
+        for name in ZONE_NAMES:
+            wd = world(offs[0])
+            v = wd.value(ws[0])
+            vars(v).update(timezone_name=name)
+            got = outcome(minieval.call, wd.fmeths["format"], [wd.formatter, v, "z", "en"], {}, wd.glob)
+            back = outcome(wd.parse, name + " 2021", "z YYYY", now) if got == ("ok", name) else None
+            ok = got == ("ok", name) and back is not None and back[0] == "ok" and _tz_of(back[1].get("tz")) == name and back[1].get("year") == 2021
+            ctx.ob("ROUNDTRIP.tabulated", f"zone name `{name}` through z", ok, f"format -> {got[1]!r}; parse -> {back and (back[1] if back[0] == 'raise' else _tz_of(back[1].get('tz')))!r}", loc_parse)
+        # 2. round trip of full formats
+        fields = ("year", "month", "day", "hour", "minute", "second", "microsecond")
+        for fmt in FULL + [f"YYYY-MM-DD {t} HH:mm:ss.SSSSSS ZZ" for t in WEEKDAY_TOKENS]:
+            wrong = []
+            width = max((len(x) for x in re.findall(r"S+", re.sub(r"\[[^\]]*\]", "", fmt))), default=0)
+            for w, off in pairs:
+                if fmt.startswith("YY-") and not 1969 <= w.year <= 2068:      # two-digit years: the POSIX window
+                    continue
+                wd = world(off)
+                s = outcome(wd.format, w, fmt)
+                r = outcome(wd.parse, s[1], fmt, now) if s[0] == "ok" else s
+                usec = w.microsecond // 10 ** (6 - width) * 10 ** (6 - width)
+                if r[0] != "ok" or tuple(r[1].get(k) for k in fields) != (w.year, w.month, w.day, w.hour, w.minute, w.second, usec) \
+                        or _tz_of(r[1].get("tz")) != off // _dt.timedelta(seconds=1):
+                    got = r[1] if r[0] == "raise" else {k: r[1].get(k) for k in fields} | {"tz": _tz_of(r[1].get("tz"))}
+                    wrong.append(f"{s[1]!r} -> {got}")
+            tok = fmt.split()[1] if fmt.startswith("YYYY-MM-DD ") and fmt.split()[1] in WEEKDAY_TOKENS else None
+            ctx.ob("ROUNDTRIP.tabulated", f"weekday token `{tok}` beside a full date" if tok else f"format `{fmt}`", not wrong,
+                   f"{len(pairs)} (DateTime, offset) values formatted then parsed: " + (f"{len(wrong)} do not come back, e.g. {wrong[:2]}" if wrong else "fields and offset come back"), loc_parse)
+        # timestamps
+        wrong = []
+        for fmt in ("X", "x"):
+            for w, off in pairs:
+                if w.year > 9000:
+                    continue
+                wd = world(off)
+                s = outcome(wd.format, w, fmt)
+                r = outcome(wd.parse, s[1], fmt, now) if s[0] == "ok" else s
+                u = (w - off).replace(microsecond=0 if fmt == "X" else w.microsecond // 1000 * 1000)
+                if r[0] != "ok" or tuple(r[1].get(k) for k in fields) != (u.year, u.month, u.day, u.hour, u.minute, u.second, u.microsecond):
+                    wrong.append(f"{fmt}: {s[1]!r} -> {r[1] if r[0] == 'raise' else tuple(r[1].get(k) for k in fields)}")
+        ctx.ob("ROUNDTRIP.tabulated", "timestamp tokens X / x", not wrong, "the UTC fields of the instant come back" if not wrong else f"{len(wrong)} wrong, e.g. {wrong[:2]}", loc_parse)
+        # 3. localized names in every shipped locale
+        locs = _locales()
+        wd = world(offs[0])
+        for loc in locs:
+            wrong = []
+            if thorough:
+                cases = [(_dt.datetime(2021, mo, 15), fmt) for mo in range(1, 13) for fmt in ("YYYY MMMM D", "D MMM YYYY")] + \
+                        [(_dt.datetime(2021, 3, 1 + dd), fmt) for dd in range(7) for fmt in ("dddd YYYY-MM-DD", "YYYY-MM-DD ddd", "YYYY-MM-DD [/] dd")]
+            else:       # every month name and every day name in each width, two names per string
+                cases = [(_dt.datetime(2021, mo, 1) + _dt.timedelta(days=(mo - 1 - _dt.date(2021, mo, 1).weekday()) % 7), fmt) for mo in range(1, 13)
+                         for fmt in ("dddd D MMMM YYYY", "dd ddd D MMM YYYY")]
+            for w, fmt in cases:
+                s = outcome(wd.format, w, fmt, loc)
+                r = outcome(wd.parse, s[1], fmt, now, loc) if s[0] == "ok" else s
+                if r[0] != "ok" or (r[1].get("year"), r[1].get("month"), r[1].get("day")) != (w.year, w.month, w.day):
+                    wrong.append(f"{fmt}: {s[1]!r} -> {r[1] if r[0] == 'raise' else (r[1].get('year'), r[1].get('month'), r[1].get('day'))}")
+            ctx.ob("ROUNDTRIP.tabulated", f"locale {loc}: month and day names", not wrong,
+                   f"12 month names x 2 widths, 7 day names x 3 widths in {len(cases)} strings formatted then parsed: " + (f"{len(wrong)} do not come back, e.g. {wrong[:3]}" if wrong else "all come back"), f"src/pendulum/locales/{loc}/locale.py")
+        # 4. absent date fields come from `now`; no match -> ValueError
+        wrong = []
+        for fmt in ("HH:mm:ss", "h:mm A", "H", "HH:mm:ss.SSS"):
+            for w in ws[:8]:
+                s = outcome(wd.format, w, fmt)
+                r = outcome(wd.parse, s[1], fmt, now) if s[0] == "ok" else s
+                if r[0] != "ok" or (r[1].get("year"), r[1].get("month"), r[1].get("day")) != (now.year, now.month, now.day) or r[1].get("hour") != w.hour:
+                    wrong.append(f"{fmt}: {s[1]!r} -> {r[1]}")
+        ctx.ob("NOWFILL.tabulated", "Formatter.parse: time-only formats", not wrong, "year, month and day are those of the `now` supplied" if not wrong else f"wrong: {wrong[:3]}", loc_parse)
+        wrong = []
+        for text, fmt in NOMATCH:
+            r = outcome(wd.parse, text, fmt, now)
+            if r != ("raise", "ValueError"):
+                wrong.append(f"parse({text!r}, {fmt!r}) -> {r[1] if r[0] == 'raise' else 'accepted'}")
+        ctx.ob("NOMATCH.tabulated", "Formatter.parse: strings that do not match", not wrong, f"{len(NOMATCH)} strings: " + ("all raise ValueError" if not wrong else f"wrong: {wrong[:3]}"), loc_parse)
+    except fmtstub.ERRORS as e:
+        ctx.unverified("RENDER.tabulated", "Formatter.format / Formatter.parse", f"outside the checker's interpreter: {type(e).__name__}: {str(e)[:200]}", loc_format)
+
+
+
 def run(ctx) -> None:
     ctx.explanation = EXPLANATION
     m = pmod(FMT)
@@ -747,6 +978,7 @@ def run(ctx) -> None:
     ctx.step(_from_format, ctx)
     ctx.step(_defaulting, ctx, m)
     ctx.step(_timestamp_fraction, ctx, m)
+    ctx.step(_formatter_tabulate, ctx, ctx.tier == "thorough")
     ctx.expect_min("SCALE.timestamp", 1)
     ctx.expect_min("DEFAULTS.fill", 6)
     ctx.expect_min("TABLES.language", 40)
